@@ -160,9 +160,20 @@ def cache_family(ctx, crecs):
             f["name"], (" (fault %s)" % fault["meaning"]) if fault else "", json.dumps(f["got"])[:300],
             json.dumps(f["want"])[:300]),
             {"oracle": f["name"], "universe_and_layout": cunis[f["u"]], "root_requirements": f["root"], "fault": fault,
-             "got": f["got"], "want": f["want"],
+             "got": f["got"], "want": f["want"], "error_text": f.get("error_text", ""),
              "how": "internal/mvs.BuildList over the repositories of harness/overlay/internal/mvs/"
                     "zz_verif_c10_cache_test.go: case %d of VERIF_SEED=%d -run TestVerifC10Cache" % (f["case"], ctx.seed)})
+    # the cache model's invariant observed on the implementation (Mvs/Cache.v, theorem cache_entries_complete)
+    inv = [r for r in crecs if r["t"] == "INV"]
+    ctx.coverage["cache_states"]["cache_entries_inspected"] = sum(c.get("entries_inspected", 0) for c in ccases)
+    ctx.coverage["cache_states"]["incomplete_entries"] = len(inv)
+    if inv and not seen:
+        ctx.violation("cache model and implementation disagree: %d cache directories visible to other resolvers were not "
+                      "complete downloads, e.g. %s %s (%s; fault %s)" % (len(inv), inv[0]["entry"], inv[0]["when"],
+                                                                     inv[0]["difference"], inv[0]["fault"]["meaning"]),
+                      {"theorem_or_correspondence": "correspondence Mvs/Cache.v (cache_entries_complete) <-> "
+                                                    "internal/mvs/resolver.go FetchProject",
+                       "universe_and_layout": cunis[inv[0]["u"]], "disagreeing_cases": inv[:3]}, found_input=False)
 
 
 def run(ctx):
